@@ -159,8 +159,11 @@ def prune_old(keep):
     if not os.path.isdir(BUILD):
         return
     ds = sorted((os.path.join(BUILD, x) for x in os.listdir(BUILD)), key=os.path.getmtime, reverse=True)
+    now = time.time()
     for old in ds[keep:]:
-        shutil.rmtree(old, ignore_errors=True)
+        # another check (a scratch run against a changed tree, say) may still be using a directory it built a while ago
+        if now - os.path.getmtime(old) > 45 * 60:
+            shutil.rmtree(old, ignore_errors=True)
 
 
 def build(harness_c, flavor="asan", images=(("s", "server"), ("ca", "client")), extra_srcs=()):
@@ -194,7 +197,7 @@ def build(harness_c, flavor="asan", images=(("s", "server"), ("ca", "client")), 
         os.path.join(d, "forbidden.o")] + refs + imgs +
        ["-lz", "-lm", "-o", tmp])
     os.rename(tmp, exe)
-    prune_old(6)
+    prune_old(8)
     return exe
 
 
